@@ -124,7 +124,7 @@ var props = map[string]propCfg{
 	"C15": {Focus: "C15", Arms: []string{"unit", "e2e"}, Probes: []string{"c15_decisions_compared", "c15_e2e_refused", "c15_e2e_admitted"}},
 	"C16": {Focus: "C16", Arms: []string{"clean"}, Probes: []string{"c16_tc_seen", "c16_tcp_outcome_returned", "c16_no_tc"}},
 	"C07": {Focus: "C07", Arms: []string{"ample", "prefetch", "tiny", "redis"}, Probes: []string{"cache_hit", "c07_group_checked", "c07_compared_with_first_relay", "c07_hit_expected"}},
-	"C08": {Focus: "C08", Arms: []string{"clean", "clean", "redis"}, Probes: []string{"cache_hit", "c08_ttl_checked", "cache_hit_last_quarter"}},
+	"C08": {Focus: "C08", Arms: []string{"clean", "clean", "redis"}, Probes: []string{"cache_hit", "c08_ttl_checked", "cache_hit_last_quarter", "c08_servfail_fetched"}},
 	"C17": {Focus: "C17", Arms: []string{"addr", "auth", "mtls", "pair"}, Probes: []string{"c17a_case_checked", "c17b_case_checked", "c17_mtls_checked", "c17_mtls_unacceptable_client", "c17_pair_mustfail_checked", "c17_pair_ok_checked"}},
 	"C18": {Focus: "C18", Arms: []string{"xclose", "rclose", "startfault", "xclose", "latedial"}, Rare: []string{"exhaust"}, RareEvery: 1500, Probes: []string{"c18_upstream_close_checked", "c18_router_close_checked", "c18_call_after_close", "c18_call_inflight_at_close"}},
 	"C19": {Focus: "C19", Arms: []string{"clean", "clean", "prefetch", "redis"}, Probes: []string{"cache_hit", "cache_hit_last_quarter", "c07_hit_expected"}},
